@@ -50,6 +50,59 @@ Section SlabModel.
   Definition e14 : F := fdec 1 (-14).
   Definition twopi : F := f2 * fpi.
 
+  (** a straight piece (equal top and bottom dip) from [begin]: end point and, when the foot of the check point lies on
+      the piece, (signed distance, distance along the piece, depth of the foot) *)
+  Definition straight_piece (sr : F) (begin : pt2) (len top : F) (cp2d : pt2) : pt2 * option (F * F * F) :=
+    let deg90 := fhalf * fpi in
+    let e0 := fst begin + (len * fsin (deg90 - top)) in
+    let e1 := snd begin - (len * fcos (deg90 - top)) in
+    let endp := (e0, e1) in
+    let bsp_esp := p2sub endp begin in
+    let bsp_cp := p2sub cp2d begin in
+    let c1 := p2dot bsp_esp bsp_cp in
+    let c2 := p2dot bsp_esp bsp_esp in
+    if (c1 <? f0) || (c2 <? c1) then (endp, None)
+    else
+      let pb := p2add begin (p2scale bsp_esp (c1 / c2)) in
+      let side := if (((fst begin - fst endp) * (snd cp2d - snd begin)) - ((snd begin - snd endp) * (fst cp2d - fst begin))) <? f0
+                  then - f1 else f1 in
+      (endp, Some (side * p2norm (p2sub cp2d pb), p2norm (p2sub begin pb), sr - snd pb)).
+
+  (** a circular arc (dip changing from [top] to [bottom], [diff = top - bottom]) from [begin] *)
+  Definition arc_piece (sr : F) (begin : pt2) (len top bottom diff : F) (cp2d : pt2) : pt2 * option (F * F * F) :=
+    let R := fabs (len / diff) in
+    let cos_top := fcos top in
+    let center : pt2 :=
+      if fabs (top - (fhalf * fpi)) <? e8 then
+        ((if f0 <? diff then fst begin + R else fst begin - R), snd begin)
+      else if fabs (top - (fdec 15 (-1) * fpi)) <? e8 then
+        ((if f0 <? diff then fst begin - R else fst begin + R), snd begin)
+      else
+        let tan_top := ftan top in
+        let ccy := if diff <? f0 then snd begin - (R * cos_top) else snd begin + (R * cos_top) in
+        let ccybs := ccy - snd begin in
+        (fst begin + (tan_top * ccybs), ccy) in
+    let bspc := p2sub begin center in
+    let sd := fsin diff in let cd := fcos diff in
+    let endp := (((cd * fst bspc) - (sd * snd bspc)) + fst center, ((sd * fst bspc) + (cd * snd bspc)) + snd center) in
+    let cpcr := p2sub cp2d center in
+    let n := p2norm cpcr in
+    let dotp := (f0 + (fst cpcr * f0)) + (snd cpcr * R) in
+    let cpa0 := if fabs n <? feps then twopi
+                else if fst cp2d <=? fst center then facos (dotp / (n * R))
+                else twopi - facos (dotp / (n * R)) in
+    let cpa1 := if f0 <=? diff then fpi - cpa0 else twopi - cpa0 in
+    let cpa := if fabs (cpa1 - twopi) <? e14 then f0 else cpa1 in
+    let e12 := fdec 1 (-12) in
+    let inside :=
+      ((f0 <? diff) && ((cpa <=? top) || (fabs (cpa - top) <? e12)) && ((bottom <=? cpa) || (fabs (cpa - bottom) <? e12)))
+      || ((diff <? f0) && ((top <=? cpa) || (fabs (cpa - top) <? e12)) && ((cpa <=? bottom) || (fabs (cpa - bottom) <? e12))) in
+    if inside then
+      let sgn := if diff <? f0 then f1 else - f1 in
+      (endp, Some ((R - n) * sgn, ((R * cpa) - (R * top)) * sgn,
+                   sr - (((fsin (cpa + top) * fst bspc) + (fcos (cpa + top) * snd bspc)) + snd center)))
+    else (endp, None).
+
   (** one iteration of the segment loop; [top0 bot0 len0] belong to the current section, [top1 bot1 len1] to the next *)
   Definition segment_step (sr frac : F) (isec : nat) (cp2d : pt2) (st : seg_state) (iseg : nat)
              (cur nxt : F * F * F) : seg_state :=
@@ -64,58 +117,20 @@ Section SlabModel.
          ss_ndist := ss_ndist st; ss_nalong := ss_nalong st; ss_ndepth := ss_ndepth st; ss_best := ss_best st |}
     else
       let diff := top - bottom in
-      let deg90 := fhalf * fpi in
       (* (end_segment, new_distance, new_along, new_depth) *)
       let '(endp, nd, na, ndep) :=
         if fabs diff <? e8 then
           if feps <? fabs len then
-            let e0 := fst begin + (len * fsin (deg90 - top)) in
-            let e1 := snd begin - (len * fcos (deg90 - top)) in
-            let endp := (e0, e1) in
-            let bsp_esp := p2sub endp begin in
-            let bsp_cp := p2sub cp2d begin in
-            let c1 := p2dot bsp_esp bsp_cp in
-            let c2 := p2dot bsp_esp bsp_esp in
-            if (c1 <? f0) || (c2 <? c1) then (endp, finf, finf, finf)
-            else
-              let pb := p2add begin (p2scale bsp_esp (c1 / c2)) in
-              let side := if (((fst begin - fst endp) * (snd cp2d - snd begin)) - ((snd begin - snd endp) * (fst cp2d - fst begin))) <? f0
-                          then - f1 else f1 in
-              (endp, side * p2norm (p2sub cp2d pb), p2norm (p2sub begin pb), sr - snd pb)
+            match straight_piece sr begin len top cp2d with
+            | (endp, Some (a, b, c)) => (endp, a, b, c)
+            | (endp, None) => (endp, finf, finf, finf)
+            end
           else (ss_end st, ss_ndist st, ss_nalong st, ss_ndepth st)
         else
-          let R := fabs (len / diff) in
-          let cos_top := fcos top in
-          let center : pt2 :=
-            if fabs (top - (fhalf * fpi)) <? e8 then
-              ((if f0 <? diff then fst begin + R else fst begin - R), snd begin)
-            else if fabs (top - (fdec 15 (-1) * fpi)) <? e8 then
-              ((if f0 <? diff then fst begin - R else fst begin + R), snd begin)
-            else
-              let tan_top := ftan top in
-              let ccy := if diff <? f0 then snd begin - (R * cos_top) else snd begin + (R * cos_top) in
-              let ccybs := ccy - snd begin in
-              (fst begin + (tan_top * ccybs), ccy) in
-          let bspc := p2sub begin center in
-          let sd := fsin diff in let cd := fcos diff in
-          let endp := (((cd * fst bspc) - (sd * snd bspc)) + fst center, ((sd * fst bspc) + (cd * snd bspc)) + snd center) in
-          let cpcr := p2sub cp2d center in
-          let n := p2norm cpcr in
-          let dotp := (f0 + (fst cpcr * f0)) + (snd cpcr * R) in
-          let cpa0 := if fabs n <? feps then twopi
-                      else if fst cp2d <=? fst center then facos (dotp / (n * R))
-                      else twopi - facos (dotp / (n * R)) in
-          let cpa1 := if f0 <=? diff then fpi - cpa0 else twopi - cpa0 in
-          let cpa := if fabs (cpa1 - twopi) <? e14 then f0 else cpa1 in
-          let e12 := fdec 1 (-12) in
-          let inside :=
-            ((f0 <? diff) && ((cpa <=? top) || (fabs (cpa - top) <? e12)) && ((bottom <=? cpa) || (fabs (cpa - bottom) <? e12)))
-            || ((diff <? f0) && ((top <=? cpa) || (fabs (cpa - top) <? e12)) && ((cpa <=? bottom) || (fabs (cpa - bottom) <? e12))) in
-          if inside then
-            let sgn := if diff <? f0 then f1 else - f1 in
-            (endp, (R - n) * sgn, ((R * cpa) - (R * top)) * sgn,
-             sr - (((fsin (cpa + top) * fst bspc) + (fcos (cpa + top) * snd bspc)) + snd center))
-          else (endp, ss_ndist st, ss_nalong st, ss_ndepth st) in
+          match arc_piece sr begin len top bottom diff cp2d with
+          | (endp, Some (a, b, c)) => (endp, a, b, c)
+          | (endp, None) => (endp, ss_ndist st, ss_nalong st, ss_ndepth st)     (* the previous values stay *)
+          end in
       let best := ss_best st in
       let half_sum := fhalf * ((top + bottom) - (f2 * f0)) in
       let best' :=
